@@ -154,6 +154,54 @@ def run(tier, replay=None):
                 raise vlib.ToolError("deviation counted although it is not listed")
             rep.known_finding_seen("default-cert-legacy-sni")
             rep.known["default-cert-legacy-sni"]["n"] += ws["routed_under_default_certificate_as_listed_deviation"] - 1
+    # 4d. I->S: seeded random operations (chosen without the spec), recorded, validated by TLC against
+    #     Trace_CertResolver.tla; plus a canary (one corrupted observation must be rejected at that event)
+    import re
+    import shutil
+    n_events = 0
+    for variant in ((0, 1, 2) if thorough else (seed % 3,)):
+        tr = os.path.join(wd, "trace_%d.ndjson" % variant)
+        s = harness(rep, bins, beh, ["--mode", "trace", "--variant", str(variant), "--seed", str(seed * 11 + variant),
+                                     "--walks", "1200" if thorough else "250", "--len", "40" if thorough else "30",
+                                     "--trace-out", tr])
+        tv = vlib.tlc_trace("Trace_CertResolver", "Trace_CertResolver.cfg", PID, tr, timeout=1500)
+        if tv["accepted"]:
+            n_events += tv["consumed"]
+            total_hist += sum(s["histories_by_length"].values())
+            vlib.log("trace %s: %d events accepted" % (s["concretisation"], tv["consumed"]))
+        else:
+            m = re.search(r'"FIRST-UNEXPLAINED", (.*)', tv["out"])
+            keep = os.path.join(vlib.ROOT, "replays", PID, "trace_rejected_%d.ndjson" % variant)
+            os.makedirs(os.path.dirname(keep), exist_ok=True)
+            shutil.copy(tr, keep)
+            rep.violation("trace:" + (tv["violated"] or "unexplained-event"),
+                          "recorded trace is not a behaviour of the spec: consumed %s of %s; %s" % (
+                              tv["consumed"], tv["total"], (m.group(1)[:400] if m else tv["violated"])),
+                          {"trace": keep, "consumed": tv["consumed"], "total": tv["total"], "violated": tv["violated"],
+                           "first_unexplained": m.group(1) if m else None}, name="trace_rejected_%d.json" % variant)
+            continue
+        # canary
+        lines = open(tr).read().splitlines()
+        target = None
+        for i, l in enumerate(lines):
+            if i < len(lines) // 8:
+                continue
+            e = json.loads(l)
+            if e.get("ev") == "remove" and any(e["served"]):
+                j = [k for k, x in enumerate(e["served"]) if x][0]
+                e["served"][j] = 0
+                lines[i] = json.dumps(e)
+                target = i
+                break
+        if target is not None:
+            bad = os.path.join(wd, "trace_canary.ndjson")
+            with open(bad, "w") as f:
+                f.write("\n".join(lines) + "\n")
+            cv = vlib.tlc_trace("Trace_CertResolver", "Trace_CertResolver.cfg", PID, bad, timeout=1500)
+            if cv["accepted"] or cv["consumed"] != target:
+                raise vlib.ToolError("trace canary: corrupted event %d not rejected there (consumed %s)" % (target + 1, cv["consumed"]))
+            vlib.log("trace canary: corrupted observation rejected at event %d" % (target + 1))
+    rep.extra["trace_events_validated"] = n_events
     # vacuity guards of the wire leg: requests were routed and requests were refused with 421
     if not rep.violations and (wk.get("routed_to_backend", 0) == 0 or wk.get("answered_421", 0) == 0 or wk.get("tcp_tls_handshakes", 0) == 0):
         raise vlib.ToolError("worker leg is vacuous: %s" % json.dumps(wk))
@@ -172,7 +220,8 @@ def run(tier, replay=None):
                        "(re-add, remove absent, idempotent / failing replace); plus seeded random histories of length %s; plus "
                        "one shortest history per spec state and random ones ending in real TLS handshakes for all 8 probe names; plus "
                        "random histories sent to a real worker over the command channel with TCP/TLS handshakes after every step "
-                       "and an SNI x authority request matrix (HTTP/1.1 keep-alive and HTTP/2 streams) at the end. "
+                       "and an SNI x authority request matrix (HTTP/1.1 keep-alive and HTTP/2 streams) at the end; plus (I->S) seeded "
+                       "random runs recorded as ndjson and accepted by TLC against Trace_CertResolver.tla. "
                        "The spec's state graph (%d states) is complete, so TLC's verdict covers histories of any length."
                        % ("4 (3 for the RSA pairs)" if thorough else "3 (1/8 of length 4)", "14" if thorough else "10", n_states if not replay else 0))
     rep.assumptions += [
